@@ -135,6 +135,7 @@ func rulesRangeCode(p *Prog, r *Report) {
 		matchFn := glr
 		byLoopTest := false
 		searchFns := []*ssa.Function{glr}
+		helperDescs := map[*ssa.Function][]string{}
 		{
 			visited := map[*ssa.Function]bool{glr: true}
 			var visit func(fn *ssa.Function, siteFn *ssa.Function, siteBlk *ssa.BasicBlock, d int)
@@ -187,6 +188,7 @@ func rulesRangeCode(p *Prog, r *Report) {
 							}
 							if hasLoop(callee) {
 								searchFns = append(searchFns, callee)
+								helperDescs[callee] = descs
 								visit(callee, nil, nil, d+1)
 							} else if siteBlk != nil {
 								visit(callee, siteFn, siteBlk, d+1)
@@ -213,6 +215,46 @@ func rulesRangeCode(p *Prog, r *Report) {
 			for _, l := range pathLiteralsWith(qzp, matchFn, matchBlock) {
 				if l.Op == "atom" && (l.Atom == canonAtom("(elem(elem(elem("+lr+"))) == "+probeDesc+")")) {
 					okCond = true
+				}
+			}
+			if !okCond {
+				// the test may sit in the search helper that returns the positions: every return of it that
+				// can say "found" must be under the test
+				for _, h := range searchFns[1:] {
+					descs := helperDescs[h]
+					for i, prm := range h.Params {
+						if i < len(descs) {
+							qzp.elemVar[prm] = descs[i]
+						}
+					}
+					res := h.Signature.Results()
+					nFound, nUnder := 0, 0
+					for _, hb := range h.Blocks {
+						ret, isRet := hb.Instrs[len(hb.Instrs)-1].(*ssa.Return)
+						if !isRet || len(ret.Results) == 0 {
+							continue
+						}
+						last := ret.Results[len(ret.Results)-1]
+						if !isBoolType(res.At(res.Len() - 1).Type()) {
+							continue
+						}
+						if fc, isC := last.(*ssa.Const); isC && fc.Value != nil && fc.Value.String() == "false" {
+							continue
+						}
+						nFound++
+						for _, l := range pathLiteralsWith(qzp, h, hb) {
+							if l.Op == "atom" && (l.Atom == canonAtom("(elem(elem(elem("+lr+"))) == "+probeDesc+")")) {
+								nUnder++
+								break
+							}
+						}
+					}
+					for _, prm := range h.Params {
+						delete(qzp.elemVar, prm)
+					}
+					if nFound > 0 && nFound == nUnder {
+						okCond = true
+					}
 				}
 			}
 			if !okCond {
